@@ -143,7 +143,9 @@ Definition mail_turn (j : prj) : bool :=
 
 Definition flow (j : prj) : option why := match pc j with PFl w => Some w | _ => None end.
 Definition running (p : rph) : bool := match p with RToEnd | RWatch | RLoop _ | RSend => true | _ => false end.
-Definition set_eqb (a b : list N) : bool := forallb (fun x => mem x b) a && forallb (fun x => mem x a) b.
+(* equality of multisets: a view row counts how often its event's effect was stored *)
+Definition occ (x : N) (l : list N) : N := len (filter (N.eqb x) l).
+Definition ms_eqb (a b : list N) : bool := forallb (fun x => occ x a =? occ x b) (a ++ b).
 
 Definition r_ph (x : rdr) (p : rph) : rdr := mkR p (rd x) (batch x) (dlv x) (stopped x).
 Definition r_batch (x : rdr) (p : rph) (b : list N) : rdr := mkR p (rd x) b (dlv x) (stopped x).
@@ -164,7 +166,7 @@ Definition step (c : cfg) (s : st) (a : act) : option st :=
       let wake := match r R with RRetry => true | _ => false end in
       Some (mkSt P (if wake then r_ph R RInit else R) (j_tick J wake) G)
   | Check p effs ms =>
-      if (p =? pos P) && set_eqb effs (eff P) && list_eqb N.eqb ms (mails P) then Some s else None
+      if (p =? pos P) && ms_eqb effs (eff P) && list_eqb N.eqb ms (mails P) then Some s else None
   | RInitOk p =>
       match r R with
       | RInit => if negb (stopped R) && (p =? pos P)
@@ -427,6 +429,8 @@ Definition covered (nonbuf : bool) (l : list ev) (p : N) (effs ms : list N) : bo
 Definition none_between (l : list ev) (a b : N) : bool :=
   forallb (fun o => negb (trig l o)) (seqN (a + 1) (N.to_nat (b - a - 1))).
 
+(* once a notification ran ahead of the log the trace is outside the property's domain (the code then
+   skips events, see notes/C09.md): nothing is demanded of the rest of it *)
 Fixpoint oracle (nonbuf : bool) (g : og) (l : list act) : bool :=
   match l with
   | [] => true
@@ -436,7 +440,7 @@ Fixpoint oracle (nonbuf : bool) (g : og) (l : list act) : bool :=
       | Notify n => oracle nonbuf (mkO (o_lg g) (o_eff g) (o_mails g) (o_last g) (o_dom g && (n <=? len (o_lg g)))) t
       | RInitOk p =>
           (* resumes no later than the first event whose effects are not persisted *)
-          covered nonbuf (o_lg g) p (o_eff g) (o_mails g)
+          (negb (o_dom g) || covered nonbuf (o_lg g) p (o_eff g) (o_mails g))
           && oracle nonbuf (mkO (o_lg g) (o_eff g) (o_mails g) p (o_dom g)) t
       | PInvoke o _ =>
           (* strictly increasing, a triggering event, none skipped *)
@@ -448,9 +452,9 @@ Fixpoint oracle (nonbuf : bool) (g : og) (l : list act) : bool :=
           oracle nonbuf (mkO (o_lg g) (o_eff g) (if ok then o_mails g ++ [o] else o_mails g) (o_last g) (o_dom g)) t
       | PPutPos p v =>
           (* the persisted position is never ahead of the persisted effects *)
-          (negb (wrote v) || covered nonbuf (o_lg g) p (o_eff g) (o_mails g)) && oracle nonbuf g t
+          (negb (o_dom g) || negb (wrote v) || covered nonbuf (o_lg g) p (o_eff g) (o_mails g)) && oracle nonbuf g t
       | Check p effs ms =>
-          covered nonbuf (o_lg g) p effs ms && oracle nonbuf g t
+          (negb (o_dom g) || covered nonbuf (o_lg g) p effs ms) && oracle nonbuf g t
       | _ => oracle nonbuf g t
       end
   end.
